@@ -228,6 +228,30 @@ func (e *Engine) needAxioms(fc *FnCtx, pkgPath string) {
 		return
 	}
 	e.axiomsDone[key] = true
+	// exported lemmas: proved by their own obligations, available to everything declared after them
+	for _, k := range e.CS.sortedKeys() {
+		ct := e.CS.ByKey[k]
+		if !ct.Lemma || ct.PkgPath != pkgPath || ct.Opts["export"] == "" || (ct.Mode == "bv") != fc.TE.BV {
+			continue
+		}
+		t := e.lemmaFormula(fc, ct, "", Term{})
+		var needs []string
+		for _, pd := range e.CS.Pures {
+			if pd.Uninterp && containsSym(t.S, "u."+pd.Name) {
+				needs = append(needs, "u."+pd.Name)
+			}
+		}
+		if len(needs) == 0 {
+			needs = []string{""}
+		}
+		for _, n := range needs {
+			nn := []string{}
+			if n != "" {
+				nn = []string{n}
+			}
+			fc.TE.G.axioms = append(fc.TE.G.axioms, Axiom{Name: "lemma." + ct.Key + "." + n, Text: "(assert " + t.S + ")", Needs: nn, Seq: ct.Seq})
+		}
+	}
 	for _, ax := range e.CS.Axioms {
 		if ax.PkgPath != pkgPath {
 			continue
@@ -257,7 +281,14 @@ func (e *Engine) needAxioms(fc *FnCtx, pkgPath string) {
 			}
 		}
 		if len(needs) == 0 {
-			fc.TE.G.AddAxiom("ax."+ax.Name, "(assert "+t.S+")")
+			// no spec function: needed only where every library function it mentions occurs
+			var all []string
+			for _, fn := range fc.TE.G.funcOrder {
+				if containsSym(t.S, fn) {
+					all = append(all, fn)
+				}
+			}
+			fc.TE.G.AddAxiom("ax."+ax.Name, "(assert "+t.S+")", all...)
 		} else {
 			// one copy per needed symbol so that any of them triggers emission
 			for _, n := range needs {
@@ -350,8 +381,8 @@ func (e *Engine) i2f(te *TypeEnv, v Term, unsigned bool) Term {
 		}
 		return app(SF64, "(_ to_fp 11 53) RNE", v)
 	}
-	te.G.DeclareFun("i2f", []string{SInt}, SF64)
-	return app(SF64, "i2f", v)
+	te.G.DeclareFun("i2f", []string{SInt}, te.FSort())
+	return app(te.FSort(), "i2f", v)
 }
 
 func (e *Engine) f2i(te *TypeEnv, v Term) Term {
@@ -359,7 +390,7 @@ func (e *Engine) f2i(te *TypeEnv, v Term) Term {
 		// Go on amd64 (CVTTSD2SQ): out-of-range and NaN give 0x8000000000000000
 		return Term{fmt.Sprintf("(ite (and (not (fp.isNaN %s)) (fp.lt %s ((_ to_fp 11 53) RNE 9223372036854775808.0)) (fp.geq %s ((_ to_fp 11 53) RNE (- 9223372036854775808.0)))) ((_ fp.to_sbv 64) RTZ %s) #x8000000000000000)", v.S, v.S, v.S, v.S), SBV64}
 	}
-	te.G.DeclareFun("f2i", []string{SF64}, SInt)
+	te.G.DeclareFun("f2i", []string{te.FSort()}, SInt)
 	return app(SInt, "f2i", v)
 }
 
